@@ -103,7 +103,7 @@ func runWriterOps(a []string) string {
 		d.failAt, _ = strconv.Atoi(a[4])
 	}
 	seed, _ := strconv.ParseInt(a[5], 10, 64)
-	masks := seedMasks(seed, 48)
+	masks := seedMasks(seed, 640)
 	var items []string
 	var ms wsflate.MessageState
 	w := (*wsutil.Writer)(nil)
